@@ -110,6 +110,8 @@ STRUCTURED_ISAR = [
     '<x><struct name="A"><member name="a" type="u8"><dimension size=""/></member></struct></x>',
     '<x><struct name="A"><member name="a" type="u8"><dimension size="-1"/></member></struct></x>',
     '<x><struct name="A"><member name="a" type="u8"><dimension size="K"/></member></struct></x>',
+    '<x><typedef name="T" type="u8"/><struct name="A"><member name="a" type="u8"><dimension size="T"/></member></struct></x>',
+    '<x><typedef name="T" type="u8"/><struct name="A"><member name="a" type="u8"><dimension size="T+1"/></member></struct></x>',
     '<x><struct name="A"><member name="a" type="u8"><dimension variableSizeFieldName="@"/></member></struct></x>',
     '<x><struct name="A"><member name="a" type="u8"><dimension variableSizeFieldName=""/></member></struct></x>',
     '<x><struct name="A"><member name="a" type="u8"/><member name="a" type="u8"/></struct></x>',
@@ -213,6 +215,29 @@ def audit_cases():
             xdiamond['%s%d.xml' % (side, i)] = XI % (inc + '<struct name="%s%d"><member name="a" type="u8"/></struct>' % (side.upper(), i))
     cases.append(('isar diamond-shaped include graph, 24 levels (48 files)', ['--isar'] + outs + ['-I', '@D', '@D/l0.xml'], xdiamond))
     return cases
+
+
+def located_diagnostics(chk, root):
+    """for schema text the diagnostic is file:line:column plus reason (D112); the one exception is pinned by the repository's tests (D143)"""
+    texts = ['struct A { u8 a; u8 a; };', 'enum E { E_A = 1, E_A = 2 };', 'struct byte { u8 a; };', 'union U { 1: u8 a; 2: u16 a; };', 'const A = 1 / 0;',
+             'struct A { u8 a<@zz>; };', 'typedef T T;', 'struct A { B b; };', 'const K = 99999999999999999999999;', 'struct A { u8 a[0]; };',
+             'enum E { E_A = 4294967296 };', 'union U { 1: u8 a; 1: u16 b; };', 'struct A { u8 a; } struct B { u8 b; };', '#include "nope.prophy"',
+             'struct A { u8 x<...>; u8 y; };', '/* never closed']
+    for i, text in enumerate(texts):
+        d = os.path.join(root, 'loc%d' % i)
+        os.makedirs(d)
+        with open(os.path.join(d, 'a.prophy'), 'w') as f:
+            f.write(text + '\n')
+        outcome, msg = run_main(['--python_out', d, os.path.join(d, 'a.prophy')])
+        chk.count(('located', text), True)
+        chk.bump('located-diagnostic')
+        casej = {'kind': 'located-diagnostic', 'files': {'a.prophy': text}}
+        if outcome != 'ProphycError':
+            chk.property_violation(casej, {'what': 'a faulty schema text ended in %s, not in a diagnostic' % outcome, 'message': msg[:200]})
+        elif not re.search(r'a\.prophy:\d+:\d+: error: ', msg):
+            chk.property_violation(casej, {'what': 'the diagnostic for schema text lacks file:line:column', 'message': msg[:200]},
+                                   lambda c, dt: 'D143' if 'Duplicated' in dt['message'] and 'union' in dt['message'] else None)
+        shutil.rmtree(d, ignore_errors=True)
 
 
 def rewire(rng, sc):
@@ -339,6 +364,8 @@ def run_c13(tier):
         case('includes', outs + ['@D/sub'], {'sub/keep': ''}, 'input is a directory')
         for note, args, files in audit_cases():
             case('audit', args, files, note)
+        case('audit', outs + ['@D/a.prophy'], {'a.prophy': '#include "/proc/self/mem"\nstruct A { u8 a; };\n'}, 'include that exists but cannot be read')
+        located_diagnostics(chk, root)
         # structure-level corruptions: rewired references (self references, cycles) - also against the Lean model of the sort
         reqs, rows = [], []
         for si in range(chk.scale(150, 1500)):
